@@ -1491,7 +1491,7 @@ def describe(prop):
                          "(all-ones, random, few, adversarial cuts aimed at turning points and plateaus), served in a seeded interleaving; after EVERY delivery the replica "
                          "is compared with a fresh detector fed the consumed prefix in one piece (I1) and the chunk bookkeeping is mapped back to the delivered chunks (I2). "
                          "distinct_nontrivial counts distinct (detector, recorder, set of border kinds, chunk-count bucket, signal features, residual depth) among replicas with >=2 chunks and >=1 recorded cycle."),
-                "assumptions": ["float64 ndarray chunks (the kernels accept nothing else)", "one-piece replica of the working tree is the reference for I1 (C02 checks it against an independent definition)",
+                "assumptions": ["chunks are delivered as float64/float32/integer ndarrays, lists, Series, strided and read-only views, or block by block in the narrowest exact dtype", "differences between two samples stay below DBL_MAX", "one-piece replica of the working tree is the reference for I1 (C02 checks it against an independent definition)",
                                 "in 25% of the runs the last chunk is fed with flush=True, and so is the one-piece reference",
                                 "in 30% of runs the delivered ndarray buffer is overwritten after process() has returned (a streaming reader re-using one buffer); a divergence that needs the overwrite is reported with component '<detector>:buffer-reuse'"],
                 "required_probes": ["border:before-turn", "border:after-turn", "border:in-rev-plateau", "border:in-slope-plateau", "border:monotone",
@@ -1502,6 +1502,8 @@ def describe(prop):
                          "and every index addresses its value; one-piece replicas of all three detectors and find_turns are compared with the executable definition on the whole signal and 3 prefixes (I3). "
                          "distinct_nontrivial counts distinct (signal features, cycle-count, residual length) of signals with >=1 cycle plus distinct replica schedules as in C01."),
                 "assumptions": ["models/rainflow_ref.py is trusted (45 lines, written from the statement)",
+                                "differences between two samples stay below DBL_MAX (beyond it the kernels compare inf <= inf; not generated, see DESIGN 9.4)",
+                                "thorough tier only: marathon histories (sample counter beyond 2**31 / 2**32) with a closed-form signal and closed-form turning points",
                                 "HCM reference follows the FKM-guideline variant: after closing a loop further loops are closed by the same point only while the closed loop lies strictly inside the largest |load| so far"],
                 "required_probes": ["probe:cycles_checked", "probe:equal_cycle_ranges", "probe:fkm_cycles", "border:before-turn", "border:in-rev-plateau"]}
     return {"level": "exploration", "real": common_real, "stub": stub,
